@@ -3,6 +3,7 @@ package main
 import (
 	"fmt"
 	"go/ast"
+	"go/types"
 	"sort"
 	"strings"
 )
@@ -473,6 +474,7 @@ func checkC10(c *Ctx, r *Report) {
 	m := ruleSignatures(c, r, "signature", nil)
 	ruleProvenance(c, r, "provenance", m)
 	ruleHelpers(c, r, "helpers")
+	ruleConstCache(c, r, "const-cache")
 	checkJumpArith(c, r, "jump-arith")
 	checkU16(c, r, "u16")
 	ruleProgOwners(c, r, "prog-owners")
@@ -498,4 +500,110 @@ func checkC10(c *Ctx, r *Report) {
 	r.trust("the dispatch axiom: a rules-table entry is called only for the token in p.prev at the time of the call (checked at each dynamic call site in parsePrecedence)")
 	r.assume("assumption A: paths on which the compiler raises a diagnostic are ignored, because parse returns an error iff errorAt ran (checked by C17 error-iff-diagnostic)")
 	r.note("nothing about the values computed by a compiled program; only its structural validity")
+}
+
+// ruleConstCache: the parser's name->constant-index cache may only say the
+// truth: identRefs[k] = i is stored only for the index i at which the string
+// k itself was just added to the pool. (GETFIELD/SETFIELD/BIND/DEFBLOCK
+// operands come out of this cache and the VM asserts them to be strings.)
+func ruleConstCache(c *Ctx, r *Report, rule string) {
+	r.rule(rule, 2, "every store into the parser's constant-index cache (a map[string]int field of parser) has the form cache[k] = i where i is the result of adding the value k — the same string — to the constant pool (makeConst/addConst/identConst); so a cache hit always names a string constant spelled like the key")
+	pt := namedType(c.Bcl, "parser")
+	if pt == nil {
+		r.bad(rule, "parser", "type not found", "")
+		return
+	}
+	isCache := func(e ast.Expr) bool {
+		sel, ok := stripParens(e).(*ast.SelectorExpr)
+		if !ok {
+			return false
+		}
+		v, ok := c.objOf(sel).(*types.Var)
+		if !ok || !v.IsField() || !isNamed(c.typeOf(sel.X), bclPath, "parser") {
+			return false
+		}
+		mt, ok := v.Type().Underlying().(*types.Map)
+		return ok && types.TypeString(mt.Key(), nil) == "string" && isInt(mt.Elem())
+	}
+	// strip x.(string), string(x), parens
+	var core func(e ast.Expr) ast.Expr
+	core = func(e ast.Expr) ast.Expr {
+		e = c.stripConv(e)
+		if ta, ok := e.(*ast.TypeAssertExpr); ok {
+			return core(ta.X)
+		}
+		return e
+	}
+	for _, it := range c.sortedDecls() {
+		fd := it.fd
+		if fd.Body == nil || it.obj.Pkg() == nil || it.obj.Pkg().Path() != bclPath {
+			continue
+		}
+		n := 0
+		ast.Inspect(fd.Body, func(x ast.Node) bool {
+			as, ok := x.(*ast.AssignStmt)
+			if !ok || len(as.Lhs) != 1 || len(as.Rhs) != 1 {
+				return true
+			}
+			ix, ok := as.Lhs[0].(*ast.IndexExpr)
+			if !ok || !isCache(ix.X) {
+				return true
+			}
+			n++
+			key := fmt.Sprintf("%s/store#%d", qname(it.obj), n)
+			// the stored index: a variable defined once from an adding call, or the call itself
+			val := as.Rhs[0]
+			if id, ok := stripParens(val).(*ast.Ident); ok {
+				def, k := c.singleDef(fd.Body, c.objOf(id))
+				// `idx, ok := cache[name]; if !ok { idx = add(name) }` : one map read + one adding call
+				var adds []ast.Expr
+				ast.Inspect(fd.Body, func(y ast.Node) bool {
+					if a2, ok := y.(*ast.AssignStmt); ok {
+						for i, l := range a2.Lhs {
+							if c.isObj(l, c.objOf(id)) && i < len(a2.Rhs) {
+								if _, isIdx := stripParens(a2.Rhs[i]).(*ast.IndexExpr); !isIdx {
+									adds = append(adds, a2.Rhs[i])
+								}
+							}
+						}
+					}
+					return true
+				})
+				if len(adds) == 1 {
+					val = adds[0]
+				} else if k == 1 {
+					val = def
+				}
+			}
+			call, ok := stripParens(val).(*ast.CallExpr)
+			cn := ""
+			if ok {
+				cn = c.calleeName(call)
+			}
+			if !ok || len(call.Args) != 1 || !(cn == "parser.makeConst" || cn == "Prog.addConst" || cn == "parser.identConst") {
+				r.bad(rule, key, fmt.Sprintf("%s = %s: the cached index is not the result of adding a constant to the pool", types.ExprString(as.Lhs[0]), types.ExprString(as.Rhs[0])), c.pos(as.Pos()))
+				return true
+			}
+			kexpr := ix.Index
+			if id, ok := stripParens(kexpr).(*ast.Ident); ok {
+				if def, k := c.singleDef(fd.Body, c.objOf(id)); k == 1 && def != nil {
+					if _, isParam := c.objOf(id).(*types.Var); isParam {
+						kexpr = def
+					}
+				}
+			}
+			a, b := core(kexpr), core(call.Args[0])
+			same := c.sameExpr(a, b)
+			if !same {
+				// both constant strings of equal value
+				if s1, ok1 := c.strConst(a); ok1 {
+					if s2, ok2 := c.strConst(b); ok2 && s1 == s2 {
+						same = true
+					}
+				}
+			}
+			r.check(same, rule, key, fmt.Sprintf("%s = index of %s", types.ExprString(as.Lhs[0]), types.ExprString(call.Args[0])), fmt.Sprintf("%s caches under key %s the index at which %s was added: a later lookup of that key gets a constant that is not that string (wrong kind of operand for GETFIELD/SETFIELD/BIND/DEFBLOCK)", qname(it.obj), types.ExprString(ix.Index), types.ExprString(call.Args[0])), c.pos(as.Pos()))
+			return true
+		})
+	}
 }
